@@ -94,6 +94,19 @@ func c01Devs() []c01Dev {
 		{"vote+failed-tx", tx0(func(t *cargen.TxShape) { t.Vote, t.Failed = true, true })},
 		{"loaded-accounts", tx0(func(t *cargen.TxShape) { t.Loaded = []int{2} })},
 	}
+	// signatures whose two-byte sig-exists prefix is the first / the last bucket of the table, or differs
+	// only in byte order from another one
+	for _, pfx := range [][2]byte{{0x00, 0x00}, {0xff, 0xff}, {0x00, 0x01}, {0x01, 0x00}} {
+		pfx := pfx
+		devs = append(devs, c01Dev{fmt.Sprintf("sig-prefix=%02x%02x", pfx[0], pfx[1]), tx0(func(t *cargen.TxShape) {
+			var sg [64]byte
+			for i := range sg {
+				sg[i] = byte(0xA5 ^ i*29)
+			}
+			sg[0], sg[1] = pfx[0], pfx[1]
+			t.Sig = &sg
+		})})
+	}
 	// exact section payload sizes (CID + data) on both sides of the varint-width boundaries: the pad that
 	// produces each size is found by generating the transaction object and measuring it
 	for _, target := range []int{127, 128, 129, 16383, 16384, 16385, 16511, 16512} {
